@@ -93,6 +93,61 @@ type c12Case struct {
 	// findRejected, if set, searches a block that the algorithm legitimately discards for the fixed inputs of the case
 	// (nil if none was found within the budget); the executor puts it in front of the stream
 	findRejected func() []byte
+	// blockLen / shift: curves other than 256-bit ones (sm2_legacy.go randFieldElement, the FIPS 186-4 B.5.2 procedure
+	// its comment pins down: ceil(bitlen(n)/8) bytes, the excess bits shifted out of the FIRST byte). 0 / 0 = the
+	// 32-byte blocks of the statement.
+	blockLen int
+	shift    uint
+}
+
+func (cs *c12Case) bl() int {
+	if cs.blockLen > 0 {
+		return cs.blockLen
+	}
+	return 32
+}
+
+// enc: the stream bytes from which the library derives the value v.
+func (cs *c12Case) enc(v *big.Int) []byte {
+	b := v.FillBytes(make([]byte, cs.bl()))
+	b[0] <<= cs.shift
+	return b
+}
+
+// dec: the value the library derives from a block of stream bytes.
+func (cs *c12Case) dec(b []byte) *big.Int {
+	c := append([]byte{}, b...)
+	c[0] >>= cs.shift
+	return new(big.Int).SetBytes(c)
+}
+
+// block returns the stream bytes of a block of the given kind and the value it stands for.
+func (cs *c12Case) block(kind int, rnd []byte) ([]byte, *big.Int) {
+	if cs.blockLen == 0 {
+		b := c12Block(kind, cs.order, rnd)
+		return b, new(big.Int).SetBytes(b)
+	}
+	v := new(big.Int)
+	switch kind {
+	case 0:
+	case 1:
+		v.SetInt64(1)
+	case 2:
+		v.Sub(cs.order, big.NewInt(2))
+	case 3:
+		v.Sub(cs.order, big.NewInt(1))
+	case 4:
+		v.Set(cs.order)
+	case 5:
+		v.Add(cs.order, big.NewInt(1))
+	case 6:
+		b := bytes.Repeat([]byte{0xff}, cs.bl())
+		return b, cs.dec(b)
+	default:
+		b := fitKey(rnd, cs.bl())
+		return b, cs.dec(b)
+	}
+	return cs.enc(v), v
 }
 
 func c12Block(kind int, order *big.Int, rnd []byte) []byte {
@@ -195,7 +250,7 @@ func execC12(t *testing.T, p *sim.Program, c *sim.Ctx) {
 		// the first in-range block of the scripted stream (or the fallback block below) is the one to be discarded
 		var first *big.Int
 		for _, k := range kinds {
-			v := new(big.Int).SetBytes(c12Block(k, cs.order, rnd))
+			_, v := cs.block(k, rnd)
 			if v.Sign() > 0 && v.Cmp(hiAll) <= 0 {
 				first = v
 				break
@@ -207,8 +262,7 @@ func execC12(t *testing.T, p *sim.Program, c *sim.Ctx) {
 		}
 	}
 	for _, k := range kinds {
-		b := c12Block(k, cs.order, rnd)
-		v := new(big.Int).SetBytes(b)
+		b, v := cs.block(k, rnd)
 		if cs.xor42 {
 			b[1] ^= 0x42 // so that the value after the documented XOR is the special value
 		}
@@ -227,10 +281,13 @@ func execC12(t *testing.T, p *sim.Program, c *sim.Ctx) {
 	}
 	if expect == nil {
 		// no acceptable block scripted: the filler decides; make the filler's first block acceptable and known
-		b := fitKey(append(append([]byte{}, fill...), rnd...), 32)
+		b := fitKey(append(append([]byte{}, fill...), rnd...), cs.bl())
 		b[0] &= 0x7f // guaranteed in range for both group orders (only this fallback block is constrained)
-		b[31] |= 1
-		v := new(big.Int).SetBytes(b)
+		if cs.blockLen > 0 {
+			b[0] = 0
+		}
+		b[cs.bl()-1] |= 1
+		v := cs.dec(b)
 		if cs.xor42 {
 			b[1] ^= 0x42
 		}
@@ -267,12 +324,12 @@ func execC12(t *testing.T, p *sim.Program, c *sim.Ctx) {
 		c.Fail("scalar-infidelity", 0, opn, "%s: the secret scalar is not the first in-range block of the random stream (blocks %v, %d rejected, pre-read %v): %s", opn, kinds, rejected, pre, d)
 		return
 	}
-	wantOff := 32 * (rejected + 1)
+	wantOff := cs.bl() * (rejected + 1)
 	if pre && preCalls > 0 {
 		wantOff += preCalls
 	}
 	if rd.Off != wantOff {
-		c.Fail("bytes-consumed", 0, opn, "%s consumed %d bytes of the random stream, expected %d (%d rejected blocks, %d pre-read bytes)", opn, rd.Off, wantOff, rejected, wantOff-32*(rejected+1))
+		c.Fail("bytes-consumed", 0, opn, "%s consumed %d bytes of the random stream, expected %d (%d rejected blocks, %d pre-read bytes)", opn, rd.Off, wantOff, rejected, wantOff-cs.bl()*(rejected+1))
 		return
 	}
 	kmax := rd.Calls
@@ -507,15 +564,22 @@ func c12Build(opn string, seed, msg []byte) (*c12Case, error) {
 	case "legacy.sign", "legacy.encrypt":
 		// the sm2 package also runs its algorithms over other curves (sm2_legacy.go, randFieldElement);
 		// here NIST P-256, with Go's crypto/elliptic as the arithmetic oracle
-		cv := elliptic.P256()
+		cv := []elliptic.Curve{elliptic.P256(), elliptic.P256(), elliptic.P224(), elliptic.P384(), elliptic.P521()}[int(seed[1])%5]
 		ln := cv.Params().N
-		db := scalarFrom(seed, "ld")
+		cbl, cshift := 0, uint(0)
+		if ln.BitLen() != 256 {
+			cbl = (ln.BitLen() + 7) / 8
+			cshift = uint(cbl*8 - ln.BitLen())
+		}
+		db := derive(seed, "ld", (ln.BitLen()+7)/8)
+		db[0] = 0
+		db[len(db)-1] |= 1
 		lp := new(sm2.PrivateKey)
 		lp.Curve = cv
 		lp.D = new(big.Int).SetBytes(db)
 		lp.X, lp.Y = cv.ScalarBaseMult(db)
 		if opn == "legacy.sign" {
-			return &c12Case{name: opn, order: ln, hiOff: 1, usesPre: true,
+			return &c12Case{name: opn, order: ln, hiOff: 1, usesPre: true, blockLen: cbl, shift: cshift,
 				run: func(rd io.Reader) ([][]byte, error) {
 					h := sm3m.Sum(msg)
 					sig, err := sm2.SignASN1(rd, lp, h[:], nil)
@@ -537,7 +601,7 @@ func c12Build(opn string, seed, msg []byte) (*c12Case, error) {
 					return ""
 				}}, nil
 		}
-		return &c12Case{name: opn, order: ln, hiOff: 1,
+		return &c12Case{name: opn, order: ln, hiOff: 1, blockLen: cbl, shift: cshift,
 			// step A5 on this curve too: a scalar whose mask is all zero is legitimately replaced by the next block
 			reject: func(k *big.Int) bool {
 				x2, y2 := cv.ScalarMult(lp.X, lp.Y, k.Bytes())
@@ -555,11 +619,12 @@ func c12Build(opn string, seed, msg []byte) (*c12Case, error) {
 				return [][]byte{ct}, err
 			},
 			check: func(k *big.Int, outs [][]byte) string {
-				if len(outs[0]) < 65 || outs[0][0] != 4 {
+				fl := (cv.Params().BitSize + 7) / 8
+				if len(outs[0]) < 1+2*fl || outs[0][0] != 4 {
 					return "ciphertext does not start with an uncompressed C1"
 				}
-				x, y := cv.ScalarBaseMult(k.FillBytes(make([]byte, 32)))
-				if x.Cmp(new(big.Int).SetBytes(outs[0][1:33])) != 0 || y.Cmp(new(big.Int).SetBytes(outs[0][33:65])) != 0 {
+				x, y := cv.ScalarBaseMult(k.Bytes())
+				if x.Cmp(new(big.Int).SetBytes(outs[0][1:1+fl])) != 0 || y.Cmp(new(big.Int).SetBytes(outs[0][1+fl:1+2*fl])) != 0 {
 					return fmt.Sprintf("C1 is not [k]G for the expected block %x", k)
 				}
 				return ""
